@@ -99,6 +99,11 @@ def _want_mid(code):
         getattr(code, "co_qualname", "").startswith("Node.") or code.co_name == "recv_msg")
 
 
+def _opc_recv_loop(code):
+    """opcode-level scheduling points only inside Node.recv_loop (the frame that touches the shared queue)"""
+    return code.co_filename.endswith("bits/p2p.py") and code.co_name == "recv_loop"
+
+
 WANT = {None: _want_all, "all": _want_all, "node": _want_node, "mid": _want_mid}
 
 _GN = None
@@ -222,7 +227,7 @@ def judge(seed, script, obs):
 
 def chk_schedule(case):
     want = WANT[case.get("scope")]
-    opc = _want_node if case.get("opcodes") else None
+    opc = _opc_recv_loop if case.get("opcodes") else None
     ex = Explorer(lambda ctx: execute(ctx, case["seed"], case["script"], want, opc), cache=False)
     ctx, obs = ex.one(case["choices"])
     return judge(case["seed"], case["script"], obs)
@@ -269,7 +274,7 @@ def jobs(tier, seed):
             js.append({"name": f"3x1-node/{a}|{b}|{c}", "script": [[a], [b], [c]], "scope": "node", "weight": 60})
     if tier == "thorough":
         for a, b in itertools.product(["ping", "inv"], repeat=2):
-            js.append({"name": f"2x1-opcode/{a}|{b}", "script": [[a], [b]], "opcodes": True, "weight": 30})
+            js.append({"name": f"2x1-opcode/{a}|{b}", "script": [[a], [b]], "opcodes": True, "scope": "node", "weight": 30})
         for a in itertools.product(["ping", "inv"], repeat=3):
             for b in itertools.product(["ping", "inv"], repeat=3):
                 js.append({"name": f"2x3-mid/{'+'.join(a)}|{'+'.join(b)}", "script": [list(a), list(b)], "scope": "mid", "weight": 40})
@@ -282,7 +287,7 @@ def run_job(job):
     acc = Acc(job)
     seed, script = job["seed"], job["script"]
     want = WANT[job.get("scope")]
-    opc = _want_node if job.get("opcodes") else None
+    opc = _opc_recv_loop if job.get("opcodes") else None
     try:
         cpus = sorted(os.sched_getaffinity(0))
         if len(cpus) > 1:
